@@ -194,4 +194,21 @@ def AccGroup.groupsWith (s : AccGroup) (less : Bytes → Bytes → Bool) (order 
 def AccGroup.groups (s : AccGroup) (less : Bytes → Bytes → Bool) : Except String (List Bytes) :=
   s.groupsWith less (akeys s.data)
 
+/-! ### call sequences -/
+
+/-- One call on the aggregator. -/
+inductive AccOp
+  | addGroup (name : Bytes) (compiled : Option Stage)
+  | addData (name : Bytes) (compiled : Option Stage) (initial : Bytes)
+  | setSort (compiled : Option Stage)
+  | sample (element : Bytes)
+
+/-- Perform one call: the new state and the `error` the call returned (`Sample` returns nothing);
+`.error` = the call panicked. -/
+def AccGroup.apply (s : AccGroup) : AccOp → Except String (AccGroup × Option String)
+  | .addGroup n c => .ok (s.addGroupExpr n c)
+  | .addData n c i => .ok (s.addDataExpr n c i)
+  | .setSort c => .ok (s.setSort c)
+  | .sample e => (s.sample e).map fun s' => (s', none)
+
 end Rare.C07
